@@ -2,6 +2,7 @@ SPECIFICATION Spec
 CONSTANTS
   N = 5
   MaxItems = 3
+  DropStraddler = TRUE
   Mech = "tokens"
 INVARIANT SweepOK
 INVARIANT TokDisjoint
